@@ -4,9 +4,13 @@
     Gram/CfgSpec.v, the proofs in Gram/CfgProofs.v.  All statements quantify
     over every input record [P] (DSL, forbidden table, type request, depth
     bound, minimum variable depth, n-gram width, constant types) and every
-    program; nothing is bounded. *)
+    program; nothing is bounded.
+    Second half (C01_recursive_..., C01_bounded_is_restriction, C01_derivation_...):
+    the grammar compiled without depth bound (model Gram/CfgInf.v of
+    CFG.infinite + clean, judgement [wt_inf] and derivations [Derives] in
+    Gram/CfgInfSpec.v, proofs in Gram/CfgInfProofs.v) and the derivation API. *)
 From Coq Require Import NArith List Bool.
-From PS Require Import Base.Ty Base.Prog Gram.Cfg Gram.CfgSpec Gram.CfgProofs.
+From PS Require Import Base.Ty Base.Prog Gram.Cfg Gram.CfgSpec Gram.CfgProofs Gram.CfgInf Gram.CfgInfSpec Gram.CfgInfProofs Gram.CfgInfTotal.
 Import ListNotations.
 
 (** Membership in the cleaned grammar is the typing judgement: requested return
@@ -85,3 +89,149 @@ Theorem C01_productive : forall P x,
   productive (fuel_of P) P x = true <-> exists q, contains_at P x q = true.
 Proof. exact productive_iff_member. Qed.
 Print Assumptions C01_productive.
+
+(** * Compiled without a depth bound (CFG.infinite, recursive=False) *)
+
+(** Membership in the grammar as built is the typing judgement without depth
+    bound and without minimum variable depth: requested return type, arguments
+    typed through ends_with (full applications only), variables of the request
+    and constants at declared types anywhere, no forbidden (parent, index,
+    child) whatever the arity of the child.  Terms of every depth. *)
+Theorem C01_recursive_language : forall P, 2 <= n_gram P ->
+  forall p, contains_inf P p = wt_inf P (returns (request P)) None p.
+Proof. exact contains_inf_is_typed. Qed.
+Print Assumptions C01_recursive_language.
+
+(** clean() (removal of the non-productive, then of the unreachable
+    non-terminals, computed by rounds with explicit fuel) does not change
+    membership: whenever the computation ends within its fuel, the cleaned
+    grammar has the members of the grammar as built. *)
+Theorem C01_recursive_clean : forall P fuel c, clean_inf P fuel = Some c ->
+  forall p, contains_clean P c p = contains_inf P p.
+Proof. exact recursive_clean. Qed.
+Print Assumptions C01_recursive_clean.
+
+(** The computation of clean() does end: any fuel above the size of an explicit
+    finite universe of non-terminals (argument types of the DSL and of the
+    request's variables x contexts of at most n_gram (head, index) pairs)
+    suffices, so C01_recursive_clean is not vacuous for any input. *)
+Theorem C01_recursive_clean_total : forall P fuel, length (univ_inf P) < fuel ->
+  exists c, clean_inf P fuel = Some c.
+Proof. exact clean_inf_total. Qed.
+Print Assumptions C01_recursive_clean_total.
+
+(** The same for any grammar with one rule per symbol and any way of removing
+    rules: if an invariant K holds at the start symbol as soon as it has a
+    member, and at a non-terminal satisfying K every rule whose arguments all
+    have members is kept and passes K on to its arguments, membership at the
+    start symbol is unchanged.  (Members only consult rules of their own
+    derivation.) *)
+Theorem C01_clean_any : forall (R R' : cnt -> list rule) (K : cnt -> Prop),
+  (forall x, functional (R x)) ->
+  (forall x r, In r (R' x) -> In r (R x)) ->
+  (forall x r, K x -> In r (R x) -> (forall m, In m (snd r) -> Member R m) ->
+               In r (R' x) /\ forall n, In n (snd r) -> K n) ->
+  forall s, (Member R s -> K s) -> forall p, contains_gen R' s p = contains_gen R s p.
+Proof. exact clean_abstract. Qed.
+Print Assumptions C01_clean_any.
+
+(** What clean() computes: [c_prod] = the non-terminals connected to the start
+    symbol that have a member ("productive" = some program is derivable);
+    [c_reach] = the non-terminals connected to the start symbol through rules
+    whose arguments are all productive (nothing when the language is empty). *)
+Theorem C01_recursive_cleaned_sets : forall P fuel c, clean_inf P fuel = Some c ->
+  (forall x, In x (c_prod c) <-> Conn (rules_inf P) (start P) x /\ Member (rules_inf P) x)
+  /\ (forall x, In x (c_reach c) <->
+                Member (rules_inf P) (start P) /\ Conn (prune (c_prod c) (rules_inf P)) (start P) x).
+Proof. exact recursive_clean_spec. Qed.
+Print Assumptions C01_recursive_cleaned_sets.
+
+(** Every rule left in the cleaned unbounded grammar is applied, at its
+    non-terminal, in the derivation of some member (reachable and productive). *)
+Theorem C01_recursive_rules_useful : forall P fuel c x r,
+  clean_inf P fuel = Some c -> In r (crules_inf P c x) ->
+  exists p, contains_clean P c p = true /\ Uses (crules_inf P c) (start P) p x r.
+Proof. exact recursive_rules_useful. Qed.
+Print Assumptions C01_recursive_rules_useful.
+
+(** The depth-d grammar contains exactly the members of the unbounded grammar
+    of height at most d in which variables and constant slots occur at nesting
+    depth >= min_variable_depth ([ht] is Program.depth on programs without
+    empty application node, see C01_bounded_is_restriction_normal). *)
+Theorem C01_bounded_is_restriction_gen : forall P, 2 <= n_gram P -> forall p,
+  contains P p = contains_inf P p && Nat.leb (ht p) (max_depth P) && vars_deep (min_var P) 0 p.
+Proof. exact bounded_is_restriction_gen. Qed.
+Print Assumptions C01_bounded_is_restriction_gen.
+
+(** In particular with min_variable_depth = 0 the depth-d grammar is the
+    restriction of the unbounded grammar to height <= d.  With
+    min_variable_depth > 0 this is false: the unbounded builder has no minimum
+    variable depth, so a variable of the requested type is a member of the
+    unbounded grammar (height 1) and of no bounded one (ExInf.ex_var_root). *)
+Theorem C01_bounded_is_restriction : forall P, 2 <= n_gram P -> min_var P = 0 -> forall p,
+  contains P p = contains_inf P p && Nat.leb (ht p) (max_depth P).
+Proof. exact bounded_is_restriction. Qed.
+Print Assumptions C01_bounded_is_restriction.
+
+Theorem C01_bounded_is_restriction_normal : forall P, 2 <= n_gram P -> min_var P = 0 ->
+  forall p, normal p = true ->
+  (contains P p = true <-> contains_inf P p = true /\ pdepth p <= max_depth P).
+Proof. exact bounded_is_restriction_normal. Qed.
+Print Assumptions C01_bounded_is_restriction_normal.
+
+(** programs() when the unbounded language is finite: if the height
+    certificate of the cleaned grammar is accepted with bound h, every member
+    has height <= h, the enumeration of the depth-h grammar lists exactly the
+    normal members, and the reported count is its length (no repetition by
+    C01_count_nodup). *)
+Theorem C01_recursive_count : forall P fuel c h,
+  2 <= n_gram P -> clean_inf P fuel = Some c -> height_inf P c = Some h ->
+  (forall p, contains_inf P p = true -> ht p <= h)
+  /\ (forall p, In p (lang (bounded P h)) <-> contains_inf P p = true /\ normal p = true)
+  /\ programs_inf P c = Some (N.of_nat (length (lang (bounded P h)))).
+Proof. exact recursive_count. Qed.
+Print Assumptions C01_recursive_count.
+
+(** * Derivation API, for any grammar with one rule per symbol; the two
+      cleaned grammars are such grammars. *)
+Theorem C01_rules_one_per_symbol : forall P x, functional (crules P x).
+Proof. exact crules_functional. Qed.
+Print Assumptions C01_rules_one_per_symbol.
+
+Theorem C01_recursive_rules_one_per_symbol : forall P c x, functional (crules_inf P c x).
+Proof. exact crules_inf_functional. Qed.
+Print Assumptions C01_recursive_rules_one_per_symbol.
+
+(** A program is a member iff it has a derivation, and the derivation (the
+    pre-order list of (non-terminal, rule)) is unique. *)
+Theorem C01_derivation_exists : forall R, (forall x, functional (R x)) -> forall x p,
+  contains_gen R x p = true <-> exists l, Derives R x p l.
+Proof. exact member_iff_derives. Qed.
+Print Assumptions C01_derivation_exists.
+
+Theorem C01_derivation_unique : forall R, (forall x, functional (R x)) -> forall x p l l',
+  Derives R x p l -> Derives R x p l' -> l = l'.
+Proof. exact derivation_unique. Qed.
+Print Assumptions C01_derivation_unique.
+
+(** derive_all on a member, from the start information: no pending argument is
+    left and the list returned is the one prescribed by the pre-order node
+    list of the derivation ([trace_of]: an application node lists its own
+    non-terminal, every node lists the non-terminal of the next node, the last
+    one the end marker); the non-terminals of [nodes] are those of the
+    derivation, in order. *)
+Theorem C01_derive_all : forall R, (forall x, functional (R x)) -> forall x p,
+  contains_gen R x p = true ->
+  derive_all R p [] (DAt x) [] = Some ([], trace_of (nodes R x p))
+  /\ map fst (nodes R x p) = map fst (deriv R x p) /\ Derives R x p (deriv R x p).
+Proof. exact derive_all_full. Qed.
+Print Assumptions C01_derive_all.
+
+(** reduce_derivations on a member folds the user's operator [red] over the
+    (non-terminal, symbol, right-hand side) of its derivation in pre-order. *)
+Theorem C01_reduce_derivations : forall R, (forall x, functional (R x)) ->
+  forall (T : Type) (red : T -> cnt -> sym -> list cnt -> T) x init p,
+  contains_gen R x p = true ->
+  reduce_derivations red R x init p = Some (fold_left (red_step red) (deriv R x p) init).
+Proof. exact reduce_derivations_full. Qed.
+Print Assumptions C01_reduce_derivations.
